@@ -269,3 +269,28 @@ Definition ra_run (phase : Z) (sched : list ra_step) : ra_state :=
 
 (* once AddNotarizedBlock has run, the round is at Share or later and holds the block *)
 Definition ra_safe (s : ra_state) : bool := Z.leb sm_Share (ra_phase s) && Nat.leb 1 (ra_blocks s).
+
+(* ------------------------------------------------------------------------------------------ *)
+(* AddVRFShare by several threads (one miner each).  AddVRFShare = test (fewer than threshold
+   shares, no share of this miner) + insert; under one write-locked section the two are one
+   step (AvCheck i immediately followed by AvInsert i). *)
+Inductive av_step := AvCheck (i : nat) | AvInsert (i : nat).
+Record av_state := { av_shares : list nat; av_passed : list nat }.
+
+Definition av_exec (threshold : nat) (s : av_state) (st : av_step) : av_state :=
+  match st with
+  | AvCheck i =>
+      if Nat.ltb (length (av_shares s)) threshold
+      then {| av_shares := av_shares s; av_passed := i :: av_passed s |} else s
+  | AvInsert i =>
+      if existsb (Nat.eqb i) (av_passed s) && negb (existsb (Nat.eqb i) (av_shares s))
+      then {| av_shares := i :: av_shares s; av_passed := filter (fun j => negb (Nat.eqb i j)) (av_passed s) |}
+      else {| av_shares := av_shares s; av_passed := filter (fun j => negb (Nat.eqb i j)) (av_passed s) |}
+  end.
+
+Definition av_run (threshold : nat) (sched : list av_step) : av_state :=
+  fold_left (av_exec threshold) sched {| av_shares := []; av_passed := [] |}.
+
+(* every thread runs test+insert as one step, in the given order *)
+Definition av_atomic_schedule (threads : list nat) : list av_step :=
+  flat_map (fun i => [AvCheck i; AvInsert i]) threads.
